@@ -1006,13 +1006,19 @@ func newWatchEventPeer(peer *peer, m *fsmMsg, newState, oldState bgp.FSMState, t
 	peer.fsm.pConf.Update(&conf)
 	peer.fsm.lock.Unlock()
 
+	// the address the session really uses (like the ports below); the
+	// configured one is usually unset
+	localAddress := conf.Transport.State.LocalAddress
+	if !localAddress.IsValid() {
+		localAddress = conf.Transport.Config.LocalAddress
+	}
 	recvOpen := peer.fsm.recvOpen
 	e := &watchEventPeer{
 		Type:          t,
 		PeerAS:        conf.State.PeerAs,
 		LocalAS:       conf.Config.LocalAs,
 		PeerAddress:   conf.State.NeighborAddress,
-		LocalAddress:  conf.Transport.Config.LocalAddress,
+		LocalAddress:  localAddress,
 		PeerPort:      conf.Transport.State.RemotePort,
 		LocalPort:     conf.Transport.State.LocalPort,
 		PeerID:        conf.State.RemoteRouterId,
